@@ -82,7 +82,7 @@ fn es<E: std::fmt::Display>(e: E) -> String {
 fn rc(fmt: &'static str, variant: &'static str, cls: &'static str, file: &Arc<Vec<u8>>, d: &Data, read: Read) -> RCase {
     let cuts_quick = matches!(
         (fmt, variant),
-        ("ipc_file", "direct") | ("ipc_stream", "direct") | ("parquet", _) | ("csv", "build") | ("json_lines", "buf32") | ("avro_ocf", "buf32")
+        ("ipc_file", "direct") | ("ipc_stream", "direct") | ("parquet", "arrow_reader") | ("csv", "build") | ("json_lines", "buf32") | ("avro_ocf", "buf32")
     );
     RCase { fmt, variant, cls, round_trip: true, cuts_quick, file: file.clone(), written: d.rows(), read }
 }
